@@ -29,14 +29,20 @@ type upProc struct {
 	Deps       []string `json:"deps,omitempty"`
 	Disabled   bool     `json:"disabled,omitempty"`
 	Mode       string   `json:"mode,omitempty"`     // "" long-running | "restarting" (exits, restart always) | "pending" (waits for a dependency that never completes)
-	Replicas   int      `json:"replicas,omitempty"` // replicated processes are only kept or removed, never mutated
+	Replicas   int      `json:"replicas,omitempty"` // replicated processes are kept, removed, or get one more replica
+	Foreground bool     `json:"foreground,omitempty"`
+	SigMs      int      `json:"sig_ms,omitempty"` // reaction time to the stop signal
 }
 
 type upSpec struct {
 	Versions  [][]upProc `json:"versions"` // versions[0] = P, then successive P'
 	Changed   [][]string `json:"changed"`  // per update: names whose launch-relevant config changed (by the mutator)
 	Fields    [][]string `json:"fields"`   // per update: "name:field" descriptions
+	Flex      [][]string `json:"flex"`     // per update: replicated processes whose count grew (existing replicas: kept or replaced)
 	ViaClient bool       `json:"via_client"`
+	// Overlap: the last update is issued twice, the second request while the
+	// first is still waiting for removed / changed processes to die
+	Overlap bool `json:"overlap,omitempty"`
 }
 
 func upYAML(procs []upProc, worldID int) string {
@@ -46,6 +52,9 @@ func upYAML(procs []upProc, worldID int) string {
 	for _, p := range procs {
 		fmt.Fprintf(&b, "  %s:\n", p.Name)
 		script := sim.Script{W: worldID, RunMs: []int{-1}, Tag: p.Tag}
+		if p.SigMs > 0 {
+			script.Sig = &sim.SigSpec{Ms: p.SigMs}
+		}
 		if p.Mode == "restarting" {
 			script.RunMs, script.Exits = []int{3}, []int{1}
 		}
@@ -59,6 +68,9 @@ func upYAML(procs []upProc, worldID int) string {
 		}
 		if p.Disabled {
 			b.WriteString("    disabled: true\n")
+		}
+		if p.Foreground {
+			b.WriteString("    is_foreground: true\n")
 		}
 		if p.Replicas > 1 {
 			fmt.Fprintf(&b, "    replicas: %d\n", p.Replicas)
@@ -109,6 +121,9 @@ func genUpSpec(rng *rand.Rand, i int) upSpec {
 		}
 		if rng.Intn(2) == 0 {
 			p.Env = []string{"E1=a", "E2=b"}
+			if rng.Intn(2) == 0 {
+				p.Env = []string{"E1=k=a", "E2=b"} // a value that contains '='
+			}
 		}
 		if rng.Intn(2) == 0 {
 			p.WorkingDir = "/tmp"
@@ -143,7 +158,7 @@ func genUpSpec(rng *rand.Rand, i int) upSpec {
 	fields := []string{"args", "env-value", "env-add", "working_dir", "restart", "backoff", "probe", "signal", "deps", "executable", "none"}
 	for u := 0; u < updates; u++ {
 		next := make([]upProc, 0, len(cur))
-		var changed, desc []string
+		var changed, desc, flex []string
 		used := map[string]bool{}
 		for _, p := range cur {
 			used[p.Name] = true
@@ -157,7 +172,14 @@ func genUpSpec(rng *rand.Rand, i int) upSpec {
 				action = 3 + rng.Intn(7) // one-field-at-a-time sensitivity runs: never remove
 			}
 			if p.Replicas > 1 && action >= 1 {
-				action = 1 // kept as it is
+				if action >= 7 && p.Replicas < 9 {
+					// one more replica, same name width: the existing replicas may be
+					// kept or replaced (the statement is silent), the new one is added
+					q.Replicas = p.Replicas + 1
+					desc = append(desc, p.Name+":replicas")
+					flex = append(flex, p.Name)
+				}
+				action = 1
 			}
 			if action == 0 && len(cur) > 1 {
 				// removed - unless something still depends on it
@@ -184,7 +206,9 @@ func genUpSpec(rng *rand.Rand, i int) upSpec {
 				case "args":
 					q.Tag = fmt.Sprintf("v%d-%d", u+1, rng.Intn(100))
 				case "env-value":
-					if len(q.Env) > 0 {
+					if len(q.Env) > 0 && strings.Count(q.Env[0], "=") > 1 {
+						q.Env[0] = "E1=k=changed" + fmt.Sprint(u) // differs only after the second '='
+					} else if len(q.Env) > 0 {
 						q.Env[0] = "E1=changed" + fmt.Sprint(u)
 					} else {
 						q.Env = []string{"E1=new"}
@@ -269,7 +293,7 @@ func genUpSpec(rng *rand.Rand, i int) upSpec {
 		if rng.Intn(3) == 0 {
 			for _, nm := range names {
 				if !used[nm] {
-					next = append(next, upProc{Name: nm, Tag: fmt.Sprintf("new%d", u), Env: []string{"N=1"}})
+					next = append(next, upProc{Name: nm, Tag: fmt.Sprintf("new%d", u), Env: []string{"N=1"}, Foreground: rng.Intn(5) == 0})
 					desc = append(desc, nm+":added")
 					break
 				}
@@ -278,7 +302,16 @@ func genUpSpec(rng *rand.Rand, i int) upSpec {
 		sp.Versions = append(sp.Versions, next)
 		sp.Changed = append(sp.Changed, changed)
 		sp.Fields = append(sp.Fields, desc)
+		sp.Flex = append(sp.Flex, flex)
 		cur = next
+	}
+	if i%10 == 6 {
+		sp.Overlap = true
+		for v := range sp.Versions {
+			for k := range sp.Versions[v] {
+				sp.Versions[v][k].SigMs = 30 + int(sp.Versions[v][k].Name[1]-'a')*9
+			}
+		}
 	}
 	return sp
 }
@@ -309,7 +342,7 @@ func instances(ps []upProc) map[string]*upProc {
 func steadyAlive(ps []upProc) int {
 	n := 1 // the anchor
 	for _, p := range ps {
-		if p.Disabled || p.Mode != "" {
+		if p.Disabled || p.Mode != "" || p.Foreground {
 			continue
 		}
 		k := p.Replicas
@@ -395,23 +428,81 @@ func runUpdate(c fw.Case) fw.Result {
 		}
 		nBefore := len(w.Events())
 		var status map[string]string
-		callErr := env.Call("update", "", u, func() error {
-			var e error
-			if api != nil {
-				status, e = api.client.UpdateProject(prj)
-			} else {
-				status, e = env.Runner.UpdateProject(prj)
+		doUpdate := func(into *map[string]string) error {
+			return env.Call("update", "", u, func() error {
+				var e error
+				if api != nil {
+					*into, e = api.client.UpdateProject(prj)
+				} else {
+					*into, e = env.Runner.UpdateProject(prj)
+				}
+				return e
+			})
+		}
+		var callErr error
+		if sp.Overlap && u == len(sp.Versions)-1 {
+			// the same P' twice, the second request while the first is applying
+			var st2 map[string]string
+			done2 := make(chan error, 1)
+			sigBefore := 0
+			for _, e := range w.Events() {
+				if e.Kind == sim.EvSignal {
+					sigBefore++
+				}
 			}
-			return e
-		})
+			go func() {
+				w.WaitFor(300*time.Millisecond, func(v *sim.WorldView) bool { return v.Count(sim.EvSignal, "") > sigBefore })
+				done2 <- doUpdate(&st2)
+			}()
+			callErr = doUpdate(&status)
+			if e2 := <-done2; callErr == nil {
+				callErr = e2
+			}
+			r.Count("overlapping_updates", 1)
+			for n, v := range st2 {
+				if prev, dup := status[n]; dup && callErr == nil {
+					r.Add("C14", "overlapping-updates-both-applied", "update %d issued twice concurrently: %s was reported %s by one request and %s by the other", u, n, prev, v)
+				}
+				if status == nil {
+					status = map[string]string{}
+				}
+				status[n] = v
+			}
+		} else {
+			callErr = doUpdate(&status)
+		}
 		retSeq := len(w.Events())
 		if callErr != nil {
+			// a changed/removed process whose command exited by itself at the very
+			// moment it was to be stopped makes the stop - and with it the update -
+			// report "no such process": the update did not succeed, the statement
+			// does not apply (counted, not judged)
+			raced := false
+			for _, e := range w.Events()[nBefore:] {
+				if e.Kind == sim.EvSignal && e.Str == "dead" {
+					raced = true
+				}
+			}
+			if raced && strings.Contains(callErr.Error(), "no such process") {
+				r.Count("update_failed_stop_raced_with_exit", 1)
+				break
+			}
 			r.Add("C14", "update-error", "update %d failed: %v (status %v)", u, callErr, status)
 			break
 		}
 		if !waitSteady(sp.Versions[u]) {
 			r.Add("C14", "live-commands", "update %d (%v): live long-running commands %v, the new configuration has %d", u, sp.Fields[u-1], w.AliveNames(), steadyAlive(sp.Versions[u]))
 			break
+		}
+		// never two live commands under one name
+		seenAlive := map[string]int{}
+		for _, a := range w.AliveInfo() {
+			seenAlive[a.Name]++
+		}
+		for n, k := range seenAlive {
+			if k > 1 {
+				r.Add("C14", "duplicate-instance", "update %d (%v): %d commands of %s are alive at the same time", u, sp.Fields[u-1], k, n)
+			}
 		}
 		// new restarting / pending instances settle: give restarting ones a cycle
 		for _, n := range restarting(sp.Versions[u]) {
@@ -438,8 +529,35 @@ func runUpdate(c fw.Case) fw.Result {
 				want[n] = types.ProcessUpdateRemoved
 			}
 		}
+		// replicas of a process whose count grew: "updated" or untouched, both fine
+		flex := map[string]bool{}
+		if u-1 < len(sp.Flex) {
+			for _, base := range sp.Flex[u-1] {
+				for n, np := range newV {
+					if _, existed := oldV[n]; np.Name == base && existed {
+						flex[n] = true
+						if status[n] == types.ProcessUpdateUpdated {
+							changed[n] = true // per-instance decision, see below
+						}
+					}
+				}
+			}
+		}
+		cmpStatus, cmpWant := map[string]string{}, map[string]string{}
+		for n, v := range status {
+			if !flex[n] {
+				cmpStatus[n] = v
+			} else if v != types.ProcessUpdateUpdated {
+				r.Add("C14", "status-map:spurious-"+v, "update %d (%v): existing replica %s reported as %s", u, sp.Fields[u-1], n, v)
+			}
+		}
+		for n, v := range want {
+			if !flex[n] {
+				cmpWant[n] = v
+			}
+		}
 		r.Count("updates_checked", 1)
-		if canon(status) != canon(want) {
+		if canon(cmpStatus) != canon(cmpWant) {
 			key := "status-map"
 			for n, v := range want {
 				if status[n] != v {
@@ -495,14 +613,21 @@ func runUpdate(c fw.Case) fw.Result {
 			op, existed := oldV[n]
 			switch {
 			case !existed:
-				if !np.Disabled && np.Mode != "pending" && launched[n] == nil {
+				if !np.Disabled && !np.Foreground && np.Mode != "pending" && launched[n] == nil {
 					r.Add("C14", "added-not-launched", "update %d: new process %s was not launched", u, n)
 				}
-			case changed[np.Name]:
-				if !op.Disabled && op.Mode == "" && !signalled[n] {
+				if np.Foreground && launched[n] != nil {
+					r.Add("C14", "foreground-launched", "update %d: the added foreground process %s was launched automatically", u, n)
+				}
+			case flex[n] && !changed[n]:
+				if launched[n] != nil || signalled[n] {
+					r.Add("C14", "unchanged-disturbed", "update %d (%v): replica %s is not reported as updated but was signalled or relaunched", u, sp.Fields[u-1], n)
+				}
+			case changed[np.Name] || changed[n]:
+				if !op.Disabled && !op.Foreground && op.Mode == "" && !signalled[n] {
 					r.Add("C14", "changed-not-stopped", "update %d (%v): %s changed but its old instance was not signalled", u, sp.Fields[u-1], n)
 				}
-				if !np.Disabled && np.Mode != "pending" && launched[n] == nil {
+				if !np.Disabled && !np.Foreground && np.Mode != "pending" && launched[n] == nil {
 					r.Add("C14", "changed-not-relaunched", "update %d (%v): %s changed but no new instance was launched", u, sp.Fields[u-1], n)
 				}
 				if lateOldLaunch[n] > 0 {
@@ -558,7 +683,7 @@ func runUpdate(c fw.Case) fw.Result {
 			if _, ok := newV[n]; ok {
 				continue
 			}
-			if !op.Disabled && op.Mode == "" && !signalled[n] {
+			if !op.Disabled && !op.Foreground && op.Mode == "" && !signalled[n] {
 				r.Add("C14", "removed-not-stopped", "update %d: removed process %s was not signalled", u, n)
 			}
 			if op.Mode == "" && w.IsAlive(n) {
